@@ -16,7 +16,7 @@ CONFIG = dict(
           "inconclusive if one of them stays empty. Distinct by hash of the full case."),
     assumptions=["parents passed to Validate correspond one-to-one to e.Parents() (the checker panics otherwise by contract)",
                  "two parents are 'the same' iff they have the same event ID"],
-    level_more="Setter order (parents before sequence number) and a next epoch's set derived from the current one before the check are drawn dimensions.",
+    level_more="Setter order (parents before sequence number) and a next epoch's set derived from the current one before the check are drawn dimensions. In a third of the cases the node's validators object was RLP-decoded into twice.",
     units=[
         dict(test="TestC13Checkers", quick=50000, thorough=8000000, shards=16),
         dict(test="FuzzC13", kind="fuzz", fuzztime="60s", tiers=["thorough"]),
